@@ -322,6 +322,14 @@ func (e *Engine) assumeWFb(v Val, st *State, bounds []Term) {
 		case lkIfaceTag:
 			log.assert(app(SBool, "<=", intLit(0), t))
 			log.assert(implies(eq(t, intLit(0)), eq(v.T[i+1], intLit(0))))
+			// sealed interface (it has an unexported method): only types of its own package can implement it
+			if impls := e.sealedImplementors(l.GoT); impls != nil {
+				cs := []Term{eq(t, intLit(0))}
+				for _, it := range impls {
+					cs = append(cs, eq(t, intLit(int64(e.typeTag(it)))))
+				}
+				log.assert(or(cs...))
+			}
 		case lkScalar:
 			if b, ok := l.GoT.Underlying().(*types.Basic); ok {
 				switch b.Kind() {
